@@ -128,6 +128,39 @@ Theorem star_placer_ok : forall d c mid w',
 Proof. exact star_placer_contract. Qed.
 Print Assumptions star_placer_ok.
 
+(* placers: what they do with the layout they computed, and ANY bijective layout is a valid
+   placement (hence, by placer_preserves_operator / placer_keeps_registers, harmless) *)
+Theorem any_bijective_layout_ok : forall d c m,
+  NoDup (dnodes d) -> assert_placement d c = true -> is_perm (length (dnodes d)) m = true ->
+  placer_contract d c (wires_of_layout (dnodes d) m) = true.
+Proof. exact layout_placer_contract. Qed.
+Print Assumptions any_bijective_layout_ok.
+
+Theorem random_placer_ok : forall d c pairs samples,
+  NoDup (dnodes d) -> assert_placement d c = true ->
+  (forall m, In m samples -> is_perm (length (dnodes d)) m = true) ->
+  placer_contract d c (random_placer d pairs samples) = true.
+Proof. exact random_placer_contract. Qed.
+Print Assumptions random_placer_ok.
+
+Theorem subgraph_placer_ok : forall d c pairs answers w,
+  NoDup (dnodes d) -> assert_placement d c = true ->
+  (forall b m, In (b, m) answers -> is_perm (length (dnodes d)) m = true) ->
+  subgraph_placer d pairs answers = Some w ->
+  placer_contract d c w = true.
+Proof. exact subgraph_placer_contract. Qed.
+Print Assumptions subgraph_placer_ok.
+
+Theorem reverse_traversal_placer_ok : forall d c,
+  assert_placement d c = true -> placer_contract d c (reverse_traversal_placer c) = true.
+Proof. exact reverse_traversal_placer_contract. Qed.
+Print Assumptions reverse_traversal_placer_ok.
+
+Theorem placer_keeps_registers : forall d w c c',
+  place d w c = Some c' -> filter is_meas (cgates c') = filter is_meas (cgates c).
+Proof. exact placer_keeps_measurements. Qed.
+Print Assumptions placer_keeps_registers.
+
 Example restrict_example :
   let d := mkD [0;1;2;3] [(0,1);(1,2);(2,3)] in
   restrict d [2;1] = Some (mkD [2;1] [(1,2)]) /\ restrict d [0;2] = None /\ restrict d [0;7] = None.
